@@ -1,5 +1,6 @@
 import BddVerif.Props.C09
 import BddVerif.Lemmas.AlgoEqUtilSpec
+import BddVerif.Lemmas.AlgoEq2RenDriver
 #print axioms B.Props.C09.cnt_eq_filter_length
 #print axioms B.Props.C09.all_vals_enumeration
 #print axioms B.Props.C09.exact_card_spec
@@ -21,3 +22,4 @@ import BddVerif.Lemmas.AlgoEqUtilSpec
 #print axioms B.AlgoEqUtil.Bdd_exact_cardinality_eq_model_driver
 #print axioms B.AlgoEqUtil.Bdd_support_set_spec
 #print axioms B.AlgoEqUtil.Bdd_support_set_exact
+#print axioms B.AlgoEq2Ren.size_per_variable_eq_model
